@@ -22,6 +22,9 @@ pub enum Embed {
     Consensus(usize),
     /// the minimum-scoring word
     Anti(usize),
+    /// the maximum-scoring word over the WHOLE alphabet: the wildcard where its (finite) cell beats every
+    /// symbol's - a window that scores above `max_score()`, which only looks at the real symbols
+    Best(usize),
 }
 
 #[derive(Clone, Debug, Serialize, Deserialize)]
@@ -76,6 +79,7 @@ pub fn embed_word(cells: &[Vec<f32>], k: usize, e: &Embed, idx: &mut Vec<u8>) {
         Embed::None => return,
         Embed::Consensus(p) => (*p, true),
         Embed::Anti(p) => (*p, false),
+        Embed::Best(p) => (*p, true),
     };
     if idx.len() < m {
         return;
@@ -88,6 +92,9 @@ pub fn embed_word(cells: &[Vec<f32>], k: usize, e: &Embed, idx: &mut Vec<u8>) {
             if (want_max && row[s] > row[best]) || (!want_max && row[s] < row[best]) {
                 best = s;
             }
+        }
+        if matches!(e, Embed::Best(_)) && cells[j][k - 1].is_finite() && cells[j][k - 1] > row[best] {
+            best = k - 1;
         }
         idx[at + j] = best as u8;
     }
@@ -166,7 +173,7 @@ fn strategy(tier: Tier) -> BoxedStrategy<Case> {
                 Just(abc),
                 seq_strategy(abc.k(), len),
                 mat_strategy(abc, width, Regimes { library: true, finite: true, neginf: false, small_int: true, near_tie: true }),
-                prop_oneof![2 => Just(Embed::None), 3 => any::<usize>().prop_map(Embed::Consensus), 1 => any::<usize>().prop_map(Embed::Anti)],
+                prop_oneof![2 => Just(Embed::None), 3 => any::<usize>().prop_map(Embed::Consensus), 1 => any::<usize>().prop_map(Embed::Anti), 1 => any::<usize>().prop_map(Embed::Best)],
                 prop_oneof![3 => Just(0usize), 1 => 1usize..=33],
                 proptest::collection::vec((any::<usize>(), -2i8..=2), 0..4),
                 prop_oneof![12 => Just(0u8), 1 => Just(1u8), 1 => Just(2u8), 1 => Just(3u8)],
